@@ -154,6 +154,24 @@ Proof.
       try assumption; lia.
 Qed.
 
+(* a one-cell reference range: an ordinary formula cell shows element (1, 1),
+   a blank one as blank (only a blank SCALAR result becomes 0) *)
+Theorem single_cell_target r0 rest e row0 :
+  r0 = e :: row0 -> formula_cell (matrix (r0 :: rest)) = Ok e.
+Proof.
+  intros ->. unfold formula_cell, eval_formula. rewrite fit_translated_no_context. cbn [bind].
+  unfold matrix at 1. rewrite blank_tuple. unfold cell_value, matrix. cbn [map].
+  rewrite list_like_array. cbn [bind py_getitem as_index]. rewrite index_nth_0. cbn [bind].
+  rewrite list_like_array. cbn [bind py_getitem as_index]. rewrite index_nth_0. reflexivity.
+Qed.
+
+Theorem single_cell_scalar v : scalar_like v = true ->
+  formula_cell v = Ok (if is_blank v then VInt 0 else v).
+Proof.
+  intros Hs. unfold formula_cell, eval_formula. rewrite fit_translated_no_context. cbn [bind].
+  apply (shown_scalar v Hs).
+Qed.
+
 (* ========================================================== the sheet side *)
 (* load_members: exactly the cells of the reference range, each stamped with
    its own 1-based offset and the size *)
@@ -394,6 +412,9 @@ Example ex_members :
   cse_members 2 3 (matrix [[VInt 1]; [VInt 2]; [VInt 3]])
   = Ok (matrix [[VInt 1; VInt 1; VInt 1]; [VInt 2; VInt 2; VInt 2]]).
 Proof. vm_compute. reflexivity. Qed.
+Example ex_single_cell : formula_cell (matrix [[VNone; VInt 2]; [VInt 3; VInt 4]]) = Ok VNone
+                         /\ cse_member 1 2 (matrix [[VNone; VInt 2]; [VInt 3; VInt 4]]) 1 1 = Ok (VInt 0).
+Proof. split; vm_compute; reflexivity. Qed.
 Example ex_load_members :
   load_members 10 6 2 2
   = [((10, 6), (1, 1, 2, 2)); ((10, 7), (1, 2, 2, 2)); ((11, 6), (2, 1, 2, 2)); ((11, 7), (2, 2, 2, 2))]
